@@ -5,6 +5,7 @@ import (
 	"os"
 	"strconv"
 	"sync"
+	"time"
 
 	"github.com/openebs/jiva/types"
 
@@ -376,7 +377,7 @@ func RunMembership(w *World, idx int) {
 	for i := 0; i < nops && !w.Dead; i++ {
 		st := w.C.VerifState()
 		fs, modes := w.Attached()
-		k := r.Pick([]int{14, 10, 10, 10, 8, 8, 14, 8, 6, 6, 6})
+		k := r.Pick([]int{14, 10, 10, 10, 8, 8, 14, 8, 6, 6, 6, 7})
 		after := ""
 		switch k {
 		case 0: // a new replica arrives
@@ -504,6 +505,29 @@ func RunMembership(w *World, idx int) {
 				w.C.Start(f.Addr)
 				after = "late-register-start"
 			}
+		case 11: // two replicas ask to be added at the same time (what the add signal after Start provokes)
+			a, b := w.NewFake(int64(r.Range(1, 3))), w.NewFake(int64(r.Range(1, 3)))
+			w.poisonFake(a)
+			w.poisonFake(b)
+			w.Fac.mu.Lock()
+			w.Fac.CreateDelay = time.Duration(r.Range(1, 3)) * time.Millisecond
+			w.Fac.mu.Unlock()
+			w.rec(Step{K: "concurrent-add", Addr: a.Addr + "," + b.Addr})
+			var wg sync.WaitGroup
+			for _, f := range []*Fake{a, b} {
+				wg.Add(1)
+				go func(f *Fake) {
+					defer wg.Done()
+					w.C.AddReplica(f.Addr)
+				}(f)
+			}
+			wg.Wait()
+			w.Fac.mu.Lock()
+			w.Fac.CreateDelay = 0
+			w.Fac.mu.Unlock()
+			w.noteAttach()
+			w.Res.Count("concurrent_adds", 1)
+			after = "concurrent-add"
 		case 10: // a detached replica restarts and comes back
 			for _, f := range w.Order {
 				if _, att := modes[f]; !att && f.conn != nil {
